@@ -48,7 +48,15 @@ RULE = ("Tag multisets of size <= 3 (quick) / <= 4 (thorough; size 5 with plain 
         "verdict follows the formula with the value put into the provider (the override wins; unknown when "
         "setup_active_tag_values finds no such category); provider.get is idempotent and returns the override; where a "
         "member changes after discovery either the kept or the re-read value is accepted, but the choice must not depend "
-        "on the value. Shipped providers: "
+        "on the value. Time-varying sources: ONE matcher + provider asked 2-3 times while the source changes in between "
+        "(all adjacent-distinct value sequences of length 2 and 3 over {'1','2',None,''} resp. {0,1,2} resp. {True,False}) "
+        "for the holders {callable, ValueObject(callable), NumberValueObject(callable, ge), BoolValueObject(callable)} in "
+        "{dict, ActiveTagValueProvider, composite over a dict member, composite over an ActiveTagValueProvider member} "
+        "and {entry replaced by a plain value / by a ValueObject} in {dict, ActiveTagValueProvider, composite member, "
+        "composite's own entry} x 2 query orders x tag multisets <= 2 (<= 3) over 7 tags: every answer follows the "
+        "formula with the source's value at that moment; only where the composite provider keeps a value discovered in a "
+        "member (member entry replaced; callable evaluated by an ActiveTagValueProvider member) the first discovered "
+        "value is accepted as well. Shipped providers: "
         "multisets <= 2 (<= 3) over ~100 tags (every category of behave.active_tag.python and .python_feature x "
         "prefixes x matching/non-matching/malformed values, versions below/equal/above the running interpreter) x "
         "{python dict, python_feature dict, ActiveTagValueProvider(python), Composite(python, python_feature)}, expected "
@@ -62,7 +70,8 @@ ASSUMPTIONS = [
     "a current value that is not a string and is compared with the default operator equals no tag text (0 != '0')",
     "composite providers are built from providers with disjoint categories (precedence among providers that share a "
     "category is not stated and not checked)",
-    "lazy callables return the same value on every call",
+    "in the multiset / falsy / history sweeps lazy callables return the same value on every call; changing sources are "
+    "the subject of the time-varying sweep",
     "boolean tag values are the documented lower-case words yes/no/true/false/on/off; anything else is malformed",
     "separators are plain characters without regular-expression meaning",
 ]
@@ -853,6 +862,138 @@ def check_override(case):
     return {"v": v, "nt": nt, "out": ("override", route, first), "dg": obs, "n": n}
 
 
+# ---- time-varying sources -------------------------------------------------------------------------------
+# "Current value" means the value at the moment of the question: the same long-lived matcher + provider is asked
+# 2-3 times while the SOURCE of the category's value changes in between (A -> B, A -> B -> A, A -> B -> C), for every
+# kind of value holder.  Each answer must be the formula's answer for the value the source has at that moment.
+TV_ALPHABET = ("use.with_t=1", "use.with_t=2", "not.with_t=1", "use.with_t=", "use.with_t=yes", "not.with_t=yes",
+               "use.with_t=0")
+TV_HOLDERS = ("callable", "ValueObject(callable)", "NumberValueObject(callable,ge)", "BoolValueObject(callable)",
+              "entry-replaced", "entry-replaced-by-ValueObject")
+TV_DOMAIN = {"callable": ("1", "2", None, ""), "ValueObject(callable)": ("1", "2", None, ""),
+             "NumberValueObject(callable,ge)": (0, 1, 2), "BoolValueObject(callable)": (True, False),
+             "entry-replaced": ("1", "2", None, ""), "entry-replaced-by-ValueObject": ("1", "2", None, "")}
+TV_PROVIDERS = {True: ("dict", "atvp", "composite-over-dict-member", "composite-over-ActiveTagValueProvider-member"),
+                False: ("dict", "atvp", "composite-member-entry", "composite-own-entry")}
+TV_ORDERS = ("exclude>run", "run")
+
+
+def tv_sequences(domain):
+    out = []
+    for k in (2, 3):
+        for seq in itertools.product(domain, repeat=k):
+            if all(seq[i] is not seq[i + 1] and not (seq[i] == seq[i + 1] and type(seq[i]) is type(seq[i + 1]))
+                   for i in range(k - 1)):
+                out.append(seq)
+    return out
+
+
+def tv_predicate(holder, val):
+    if holder.startswith("NumberValueObject"):
+        return lambda tv: is_int_text(tv) and val >= int(tv)
+    if holder.startswith("BoolValueObject"):
+        return ref_bool_predicate(val)
+    return lambda tv: tv == val
+
+
+def tv_build(holder, pkind, first):
+    """-> (provider, set_source(value)); the provider is built while the source has the value `first`"""
+    A, C = TM.ActiveTagValueProvider, TM.CompositeActiveTagValueProvider
+    lazy = not holder.startswith("entry-replaced")
+    if lazy:
+        cell = [first]
+        src = lambda: cell[0]       # noqa: E731
+        held = {"callable": src, "ValueObject(callable)": None, "NumberValueObject(callable,ge)": None,
+                "BoolValueObject(callable)": None}[holder]
+        if holder == "ValueObject(callable)":
+            held = TM.ValueObject(src)
+        elif holder.startswith("NumberValueObject"):
+            held = TM.NumberValueObject(src, operator.ge)
+        elif holder.startswith("BoolValueObject"):
+            held = TM.BoolValueObject(src)
+        base = {"t": held, "k": "1"}
+        if pkind == "dict":
+            prov = base
+        elif pkind == "atvp":
+            prov = A(base)
+        elif pkind == "composite-over-dict-member":
+            prov = C([base])
+        else:
+            prov = C([{"o": "1"}, A(base)])
+        return prov, (lambda v: cell.__setitem__(0, v))
+    wrap = (lambda v: TM.ValueObject(v)) if holder.endswith("ValueObject") else (lambda v: v)
+    base = {"t": wrap(first), "k": "1"}
+    if pkind == "dict":
+        prov, target = base, base
+    elif pkind == "atvp":
+        prov = A(base)
+        target = prov
+    elif pkind == "composite-member-entry":
+        prov, target = C([{"o": "1"}, base]), base
+    else:
+        prov = C([{"o": "1"}, base])
+        target = prov
+    return prov, (lambda v: target.__setitem__("t", wrap(v)))
+
+
+def tv_accepts_kept(holder, pkind):
+    """the documented caching of the composite provider: a value DISCOVERED in a member is kept"""
+    return pkind == "composite-member-entry" or (holder == "callable" and
+                                                 pkind == "composite-over-ActiveTagValueProvider-member")
+
+
+def check_time_varying(case):
+    """one (holder kind, tag list): every value sequence x provider x query order on ONE matcher + provider"""
+    holder, idxs = case
+    tags = tuple(TV_ALPHABET[i] for i in idxs)
+    lazy = not holder.startswith("entry-replaced")
+    involved = any(parse_active(t, DEFAULT_PREFIXES, "=") for t in tags)
+    v, obs, n = [], [], 0
+    failures = {}
+    for seq in tv_sequences(TV_DOMAIN[holder]):
+        for pkind in TV_PROVIDERS[lazy]:
+            for order in TV_ORDERS:
+                prov, set_source = tv_build(holder, pkind, seq[0])
+                matcher = TM.ActiveTagMatcher(prov)
+                answers = []
+                for i, val in enumerate(seq):
+                    if i:
+                        set_source(val)
+                    got = query_order(matcher, tags, order)
+                    n += 1
+                    answers.append(got)
+                    accept = [val]
+                    if i and involved and tv_accepts_kept(holder, pkind):
+                        accept.append(seq[0])
+                    wants = [ref_exclude(tags, {"t": tv_predicate(holder, a), "k": (lambda tv: tv == "1")}) for a in accept]
+                    if any(not order_faults(got, w, order) for w in wants):
+                        continue
+                    # differential diagnosis: what does a matcher + provider built at this moment say?
+                    fprov, _ = tv_build(holder, pkind, val)
+                    fresh = query_order(TM.ActiveTagMatcher(fprov), tags, order)
+                    clause = "stale-value" if not order_faults(fresh, wants[0], order) else "formula"
+                    stale_from = [j for j in range(i) if not order_faults(
+                        got, ref_exclude(tags, {"t": tv_predicate(holder, seq[j]), "k": (lambda tv: tv == "1")}), order)]
+                    failures.setdefault((clause, pkind), []).append(
+                        "%s held as %s in provider %s, source values over time %r, calls %s each time: query #%d on tags "
+                        "%r -> (exclude, run) = %r, with the source's value %r at that moment the documented logic says "
+                        "exclude=%s (a matcher + provider built at that moment says %r%s)"
+                        % ("category t", holder, pkind, list(seq), order, i + 1, list(tags), got, val, wants[0], fresh,
+                           "; the answer fits the earlier value of query #%d" % (stale_from[0] + 1) if stale_from else ""))
+                    break
+                obs.append((seq, pkind, order, answers))
+    hclass = "value-object-over-callable" if holder.endswith("(callable)") or "(callable," in holder else holder
+    plain_fail = set(c for (c, pk) in failures if pk in ("dict", "atvp"))
+    for (clause, pkind), msgs in sorted(failures.items()):
+        d = {"subcheck": "time-varying", "clause": clause, "holder": hclass}
+        if clause not in plain_fail:
+            d["provider"] = "CompositeActiveTagValueProvider" if pkind.startswith("composite") else pkind
+        for m in msgs:
+            v.append((d, m))
+    nt = ("time", case) if involved else None
+    return {"v": v, "nt": nt, "out": ("time", holder, obs[0][3][0] if obs else None), "dg": obs, "n": n}
+
+
 # ---- providers that look empty ---------------------------------------------------------------------------
 # Truthiness / len() of a provider says nothing about what it knows: a composite provider is a UserDict whose
 # own data is only the lookup cache.  Every tag multiset x every order of the two questions, fresh objects each time.
@@ -1046,7 +1187,8 @@ def run(ctx):
     ssize = 2 if ctx.quick else 3
     ntags = len(shipped_tags())
     ctx.bounds = {"multiset_size": size, "multiset_size_plain_strings": size if ctx.quick else 5,
-                  "override_routes": list(OV_ROUTES), "override_values": list(OV_VALUES), "override_member_states": list(OV_MEMBER),
+                  "time_varying_holders": list(TV_HOLDERS), "time_varying_sequence_lengths": [2, 3],
+                  "time_varying_tag_multiset_size": 2 if ctx.quick else 3, "override_routes": list(OV_ROUTES), "override_values": list(OV_VALUES), "override_member_states": list(OV_MEMBER),
                   "override_tag_multiset_size": 2 if ctx.quick else 3, "query_orders": list(ORDERS), "query_order_value_kinds_main_sweep": list(ORDER_KINDS),
                   "history_length": 2 if ctx.quick else 3, "history_operations": ["%s(%s)" % o for o in H_OPS],
                   "falsy_current_values": [n for n, _ in FALSY_VALUES], "falsy_alphabet": list(FALSY_ALPHABET), "alphabet": list(ALPHABET), "assignments": len(ASSIGNMENTS),
@@ -1071,6 +1213,8 @@ def run(ctx):
                               for pk in H_PROVIDERS),
               chunk=32, name="provider histories before the matcher query")
     ctx.sweep(check_corner, multisets(len(ALPHABET), size), chunk=16, name="providers that look empty x query order")
+    ctx.sweep(check_time_varying, ((h, t) for t in multisets(len(TV_ALPHABET), 2 if ctx.quick else 3) for h in TV_HOLDERS),
+              chunk=4, name="time-varying sources, one long-lived matcher")
     ctx.sweep(check_override, ((r, ms, lu, t) for t in multisets(len(OV_ALPHABET), 2 if ctx.quick else 3)
                                for r in OV_ROUTES for ms in OV_MEMBER for lu in OV_LINEUPS),
               chunk=16, name="values held in the composite provider itself")
@@ -1084,6 +1228,10 @@ def run(ctx):
     ctx.guard(sum(1 for k in ctx.nt if k[0] == "main") > 5000,
               "at least 5000 distinct (multiset, assignment) with an active tag of a known category")
     ctx.guard(sum(1 for k in ctx.nt if k[0] == "bool") > 500, "at least 500 non-trivial boolean cases")
+    ctx.guard(sum(1 for k in ctx.nt if k[0] == "time") > 150, "at least 150 non-trivial (holder, tag list) with changing source")
+    to = set(k[1:] for k in ctx.outcomes if k[0] == "time")
+    ctx.guard(all((h, (True, False)) in to and (h, (False, True)) in to for h in TV_HOLDERS),
+              "time-varying sweep: both verdicts observed for every holder kind")
     ctx.guard(sum(1 for k in ctx.nt if k[0] == "override") > 1000, "at least 1000 non-trivial composite-override cases")
     oo = set(k[1:] for k in ctx.outcomes if k[0] == "override")
     ctx.guard(all((r, (None, False)) in oo and (r, (None, True)) in oo for r in OV_ROUTES),
